@@ -619,6 +619,7 @@ def run_case(ctx, idx, rng, tier):
     ctx.case = case
     ctx.sample(case)
     chk = rt.Checker(ctx, ctx._c17_schemas)
+    before_modes = dict(rt.AMP_MODES)
     for i, st in enumerate(case["steps"]):
         cls, spec = st["cls"], st["spec"]
         label = f"#{i}:{cls}"
@@ -651,3 +652,6 @@ def run_case(ctx, idx, rng, tier):
         with warnings.catch_warnings():
             warnings.simplefilter("ignore")
             getattr(chk, {"dmm": "channel", "simconfig": "simconfig_first"}.get(cls, cls))(label, spec, obj)
+    for k, v in rt.AMP_MODES.items():
+        if v > before_modes.get(k, 0):
+            ctx.count("qutip_state_amplitudes_handed_over:" + k, v - before_modes.get(k, 0))
